@@ -197,6 +197,61 @@ pub(crate) struct SessionParameters {
     pub(crate) max_paths_per_invoke: Option<u16>,
 }
 
+/// Verification hooks (feature `verif`): field view of the crate-private [`SessionParameters`]
+/// (`sii, sai, sat, dm_revision, im_revision, spec_version, max_paths_per_invoke`) and its derived
+/// TLV codec, for the derived-structure round-trip check.
+#[cfg(feature = "verif")]
+pub type VerifSessionParams = (
+    Option<u32>,
+    Option<u32>,
+    Option<u16>,
+    Option<u16>,
+    Option<u16>,
+    Option<u32>,
+    Option<u16>,
+);
+
+#[cfg(feature = "verif")]
+impl SessionParameters {
+    pub(crate) fn verif_fields(&self) -> VerifSessionParams {
+        (
+            self.sii,
+            self.sai,
+            self.sat,
+            self.dm_revision,
+            self.im_revision,
+            self.spec_version,
+            self.max_paths_per_invoke,
+        )
+    }
+
+    pub(crate) fn verif_new(f: VerifSessionParams) -> Self {
+        Self {
+            sii: f.0,
+            sai: f.1,
+            sat: f.2,
+            dm_revision: f.3,
+            im_revision: f.4,
+            spec_version: f.5,
+            max_paths_per_invoke: f.6,
+        }
+    }
+}
+
+/// Verification hook: derived `to_tlv` of `SessionParameters` with the anonymous tag
+#[cfg(feature = "verif")]
+pub fn verif_session_params_enc(f: VerifSessionParams, buf: &mut [u8]) -> Result<usize, Error> {
+    let mut wb = WriteBuf::new(buf);
+    SessionParameters::verif_new(f).to_tlv(&crate::tlv::TLVTag::Anonymous, &mut wb)?;
+    Ok(wb.as_slice().len())
+}
+
+/// Verification hook: derived `from_tlv` of `SessionParameters`
+#[cfg(feature = "verif")]
+pub fn verif_session_params_dec(data: &[u8]) -> Result<VerifSessionParams, Error> {
+    Ok(SessionParameters::from_tlv(&crate::tlv::TLVElement::new(data))?.verif_fields())
+}
+
 /// Represents a Status Report message, as per "Appendix D: Status Report Messages" of the Matter Spec.
 #[derive(Debug, Clone)]
 #[cfg_attr(feature = "defmt", derive(defmt::Format))]
